@@ -21,7 +21,7 @@ import (
 	. "zharness/hz"
 )
 
-func main() { Main(map[string]Runner{"nodereorg": runNodeReorg}) }
+func main() { Main(map[string]Runner{"nodereorg": runNodeReorg, "nodecrash": runNodeCrash}) }
 
 var users = []*wallet.KeyPair{g.User1, g.User2, g.User3, g.User4, g.User5}
 
